@@ -28,6 +28,7 @@ token stream of a statement.
 import FfcxModel.LNodes.Syntax
 import FfcxModel.LNodes.Lex
 import FfcxModel.Generated.Precedence
+import FfcxModel.LNodes.Dtypes
 
 namespace Ffcx.LNodes.Fmt
 open Ffcx.LNodes
@@ -328,12 +329,36 @@ def lookup (k : String) : List (String × String) → Option String
   | [] => none
   | (a, b) :: r => if a = k then some b else lookup k r
 
-/-- `math_table[arg_type.name].get(function, function)` -/
-def cMathName (sc : Scalar) (argDt : DType) (f : String) : String :=
-  let ty := if argDt = .real then sc.real else sc
+/-- `math_table[ty.name].get(function, function)` -/
+def mathNameIn (ty : Scalar) (f : String) : String :=
   match (Generated.Precedence.mathTable.find? (fun r => r.1 = ty.name)) with
   | some (_, tbl) => (lookup f tbl).getD f
   | none => f
+
+/-- `any(getattr(arg, "dtype", None) == L.DataType.SCALAR for arg in c.args)` -/
+def scalarArgs (args : List Expr) : Bool := args.any (fun a => dtypeOf a == some .scalar)
+
+/-- the name the MathFunction handler prints: from the scalar-type table iff ANY argument has
+    dtype SCALAR, otherwise from the real-type table -/
+def cMathName (sc : Scalar) (args : List Expr) (f : String) : String :=
+  mathNameIn (if scalarArgs args then sc else sc.real) f
+
+def Scalar.isComplex : Scalar → Bool
+  | .c128 | .c64 => true
+  | _ => false
+
+/-- `c.function in math_table[ty.name]` -/
+def mathHas (ty : Scalar) (f : String) : Bool :=
+  match (Generated.Precedence.mathTable.find? (fun r => r.1 = ty.name)) with
+  | some (_, tbl) => (lookup f tbl).isSome
+  | none => false
+
+/-- the handler raises `RuntimeError("Math function … is not supported for complex arguments.")`:
+    the chosen table is the one of a complex scalar type (complex scalar type and a SCALAR argument)
+    and the function is not in it (`erf`, `atan_2`, Bessel functions, `min_value`/`max_value`, any
+    unknown handler name have no complex version) -/
+def callRaisesC (sc : Scalar) (f : String) (args : List Expr) : Bool :=
+  scalarArgs args && sc.isComplex && !mathHas sc f
 
 def opTok : BinOp → P
   | .add => .plus | .sub => .minus | .mul => .star | .div => .slash
@@ -376,8 +401,8 @@ def piecesC (sc : Scalar) : Expr → List Piece
       ++ parenIf (decide (precF b ≥ op.prec)) (piecesC sc b)
   | .sum args => joinP [sp, pp .plus, sp] (piecesNary sc 5 args)
   | .prod args => joinP [sp, pp .star, sp] (piecesNary sc 4 args)
-  | .call f dt args =>
-    .t (.id (cMathName sc dt f)) :: pp .lpar :: joinP [pp .comma, sp] (piecesList sc args) ++ [pp .rpar]
+  | .call f _ args =>
+    .t (.id (cMathName sc args f)) :: pp .lpar :: joinP [pp .comma, sp] (piecesList sc args) ++ [pp .rpar]
   | .idx arr _ ix =>
     .t (.id arr) :: pp .lbrack :: joinP [pp .rbrack, pp .lbrack] (piecesList sc ix) ++ [pp .rbrack]
   | .cond c t f =>
@@ -396,6 +421,29 @@ end
 def fmtExprC (sc : Scalar) (e : Expr) : List Char := render (piecesC sc e)
 /-- intended token stream of an expression -/
 def tokExprC (sc : Scalar) (e : Expr) : List Tok := toks (piecesC sc e)
+
+mutual
+/-- does the C formatter raise on this expression? (a MathFunction anywhere inside it that has no
+    complex version; every sub-expression is formatted exactly once) -/
+def raisesC (sc : Scalar) : Expr → Bool
+  | .litF .. | .litI .. | .sym .. => false
+  | .mi _ _ gi => raisesC sc gi
+  | .neg a => raisesC sc a
+  | .not a => raisesC sc a
+  | .bin _ a b => raisesC sc a || raisesC sc b
+  | .sum args => raisesLC sc args
+  | .prod args => raisesLC sc args
+  | .call f _ args => callRaisesC sc f args || raisesLC sc args
+  | .idx _ _ ix => raisesLC sc ix
+  | .cond c t f => raisesC sc c || raisesC sc t || raisesC sc f
+def raisesLC (sc : Scalar) : List Expr → Bool
+  | [] => false
+  | a :: as => raisesC sc a || raisesLC sc as
+end
+
+/-- `Formatter.__call__` on an expression: `none` = the Python raises -/
+def formatExprC (sc : Scalar) (e : Expr) : Option (List Char) :=
+  if raisesC sc e then none else some (fmtExprC sc e)
 
 /-! ## statements -/
 
@@ -484,19 +532,52 @@ def fmtStmtsC (sc : Scalar) : List Stmt → Option (List Char)
     | _, _ => none
 end
 
+mutual
+/-- does formatting the statement raise because of an expression inside it? -/
+def stmtRaisesC (sc : Scalar) : Stmt → Bool
+  | .assign l r => raisesC sc l || raisesC sc r
+  | .addAssign l r => raisesC sc l || raisesC sc r
+  | .vdecl _ _ v => raisesC sc v
+  | .adecl .. => false
+  | .forRange _ lo hi body => raisesC sc lo || raisesC sc hi || stmtsRaiseC sc body
+  | .comment _ => false
+  | .block ss => stmtsRaiseC sc ss
+  | .sect _ decls stmts _ _ _ => stmtsRaiseC sc decls || stmtsRaiseC sc stmts
+def stmtsRaiseC (sc : Scalar) : List Stmt → Bool
+  | [] => false
+  | s :: ss => stmtRaisesC sc s || stmtsRaiseC sc ss
+end
+
+/-- `Formatter.__call__` on a statement: `none` = the Python raises (`ValueError` for a declared
+    dtype NONE, `RuntimeError` for a math function without a complex version); otherwise the text
+    `fmtStmtC` assembles -/
+def formatStmtC (sc : Scalar) (s : Stmt) : Option (List Char) :=
+  if stmtRaisesC sc s then none else fmtStmtC sc s
+
 /-- type name as tokens (`double _Complex` is two identifiers) -/
-def tyToks (ty : String) : List Tok :=
-  ((ty.splitOn " ").filter (· ≠ "")).map Tok.id
+def wordsOf : List Char → List Char → List String
+  | acc, [] => if acc.isEmpty then [] else [String.ofList acc.reverse]
+  | acc, c :: cs =>
+    if c == ' ' then (if acc.isEmpty then wordsOf [] cs else String.ofList acc.reverse :: wordsOf [] cs)
+    else wordsOf (c :: acc) cs
+
+/-- the blank-separated words of a type name -/
+def tyWords (ty : String) : List String := wordsOf [] ty.toList
+
+def tyToks (ty : String) : List Tok := (tyWords ty).map Tok.id
+
+/-- join token lists with a separator -/
+def joinT (sep : List Tok) : List (List Tok) → List Tok
+  | [] => []
+  | [x] => x
+  | x :: xs => x ++ sep ++ joinT sep xs
 
 def initToksC : List Nat → List Expr → List Tok
   | [], _ => [.p .lbrace, .p .rbrace]
-  | [_], vals =>
-    [.p .lbrace] ++ (joinP [pp .comma] (vals.map cNumber) |> toks) ++ [.p .rbrace]
+  | [_], vals => [.p .lbrace] ++ joinT [.p .comma] (vals.map (fun v => toks (cNumber v))) ++ [.p .rbrace]
   | d :: d' :: ds, vals =>
     let inner := (d' :: ds).foldr (· * ·) 1
-    let parts := (chunks inner d vals).map (initToksC (d' :: ds))
-    [.p .lbrace] ++ (parts.foldr (fun x acc => if acc.isEmpty then x else x ++ .p .comma :: acc) [])
-      ++ [.p .rbrace]
+    [.p .lbrace] ++ joinT [.p .comma] ((chunks inner d vals).map (initToksC (d' :: ds))) ++ [.p .rbrace]
 
 mutual
 /-- the token stream the C formatter intends for a statement (comments are not tokens) -/
